@@ -268,6 +268,67 @@ func (e *Eng) modsetBlocks(blocks map[*ssa.BasicBlock]bool, caller *FuncSpec) ma
 	return out
 }
 
+// mapPointTargets refines the havoc of map heaps for a loop body: when every modification of a map heap in the body is a
+// direct update or delete on a map value that is defined outside the body (loop-invariant), only the rows of those maps
+// change. Returns heap name -> the map values, for the heaps that can be refined.
+func (e *Eng) mapPointTargets(blocks map[*ssa.BasicBlock]bool, caller *FuncSpec) map[string][]ssa.Value {
+	fresh := func(a ssa.Instruction) bool { return blocks[a.Block()] }
+	viaCalls := map[string]bool{}
+	direct := map[string][]ssa.Value{}
+	bad := map[string]bool{}
+	note := func(m ssa.Value) {
+		mt, ok := m.Type().Underlying().(*types.Map)
+		if !ok {
+			return
+		}
+		if a := allocRoot(m); a != nil && fresh(a) {
+			return
+		}
+		mi := (&Run{eng: e}).mapHeaps(nil, mt)
+		inv := true
+		if in, ok := m.(ssa.Instruction); ok && blocks[in.Block()] {
+			inv = false
+		}
+		for _, h := range []string{mi.mName, mi.domName, mi.lenName} {
+			if !inv {
+				bad[h] = true
+				continue
+			}
+			dup := false
+			for _, v := range direct[h] {
+				if v == m {
+					dup = true
+				}
+			}
+			if !dup {
+				direct[h] = append(direct[h], m)
+			}
+		}
+	}
+	for b := range blocks {
+		for _, in := range b.Instrs {
+			switch x := in.(type) {
+			case *ssa.MapUpdate:
+				note(x.Map)
+			case *ssa.Call, *ssa.Defer:
+				c := x.(ssa.CallInstruction).Common()
+				if bi, ok := c.Value.(*ssa.Builtin); ok && (bi.Name() == "delete" || bi.Name() == "clear") {
+					note(c.Args[0])
+					continue
+				}
+				e.modsetCall(c, caller, map[*ssa.Function]bool{}, viaCalls, fresh)
+			}
+		}
+	}
+	out := map[string][]ssa.Value{}
+	for h, vs := range direct {
+		if !bad[h] && !viaCalls[h] {
+			out[h] = vs
+		}
+	}
+	return out
+}
+
 // declaredMods resolves a `modifies` clause into heap component names.
 // Entries: T.f | elems(T) | cell(T) | map(K,V) | global(pkg.name) | raw heap name.
 func (e *Eng) declaredMods(sp *FuncSpec, _ *evalCtx) map[string]bool {
